@@ -140,7 +140,9 @@ func drive(prop string, r *rand.Rand, w *writer, n int) {
 	case "C15":
 		driveTrim(r, w, n)
 	case "C16":
-		driveSimplify(r, w, n)
+		driveSimplify(r, w, n, []string{"C16"}, 1)
+	case "C13S":
+		driveSimplify(r, w, n, []string{"C13"}, 4)
 	case "C06":
 		driveRect(r, w, n)
 	case "C11":
